@@ -605,10 +605,12 @@ fn emit_history(out: &mut CaseOut, rng: &mut Rng, ctx: &Ctx, steps: &[Step], cfg
     let ops_ok_term = format!("spec_opstamps {} {}", hc, ops_term);
     if opstamps_ok(&h, &obs) {
         out.coq_case("spec", ops_ok_term, desc.clone(), nontrivial);
-    } else {
+    } else if rp.f2_class {
         // opstamps are re-used after delete_all (F2): classified by Coq
         out.coq_case("known:F2", format!("F2_class F1_FIXED {} && negb ({})", hc, ops_ok_term), desc.clone(), nontrivial);
         out.count("histories_opstamp_order_broken", 1);
+    } else {
+        out.coq_case("spec", ops_ok_term, desc.clone(), nontrivial);
     }
     // ---- spec: commit_opstamp() (F1)
     let acc_ok = h.iter().zip(obs.iter()).all(|(o, ob)| !matches!(o, Op::Commit(_)) || ob.acc == ob.ret);
